@@ -611,7 +611,11 @@ func (fx *FnCtx) mapKeyTerm(st *State, k *Val) string {
 		}
 	}
 	collect(k)
-	name := "mkkey_" + sanitize(typeKey(k.T))
+	return fx.mapKeyFromLeaves(k.T, xs)
+}
+
+func (fx *FnCtx) mapKeyFromLeaves(kt types.Type, xs []string) string {
+	name := "mkkey_" + sanitize(typeKey(kt))
 	var sorts []string
 	for range xs {
 		sorts = append(sorts, "Int")
